@@ -140,6 +140,20 @@ Theorem C18_fields : field_forwarding = field_spec.
 Proof. exact fields_forwarded. Qed.
 Print Assumptions C18_fields.
 
+(* The C-ABI constructors (client tcp / rtu / tls, server tcp / rtu / tls with and without authorization): every
+   parameter of the Rust constructor they call is fed by the same-named C argument through .into() / `as usize` /
+   the address helpers (table regenerated from ffi client.rs / server.rs with the parameter names of
+   rodbus client/mod.rs and server/mod.rs): max_queued_requests, max_sessions, retry, decode level, listener,
+   serial settings, TLS config, handler map, filter. *)
+Theorem C18_ctor_plumbing :
+  forallb plumbing_row_ok ctor_plumbing = true /\
+  forallb (fun c => existsb (fun row : string * string * string * string => let '(f, callee, _, _) := row in
+                                String.eqb f (fst c) && String.eqb callee (snd c)) ctor_plumbing) ctor_spec = true /\
+  List.length (dedup (map (fun row : string * string * string * string => let '(f, callee, _, _) := row in (f, callee)) ctor_plumbing))
+    = List.length ctor_spec.
+Proof. exact ctor_plumbing_ok. Qed.
+Print Assumptions C18_ctor_plumbing.
+
 (* non-vacuity *)
 Example C18_once_example :
   let env := {| null_args := []; failing_validation := None; over_limit := false; send := Accepted;
